@@ -757,3 +757,20 @@ def c17_coarse_sig_dups(seed):
             b = build(n, combo, subst=[[at, of]], check_dups=True, hint=n, offline=r.random() < 0.3, v=vals(a=0, c=3, m=8))
             out.append(episode([b, {"op": "len"}], kt="coarse", kf=RANGE0, src="dups", budget_ms=60000))
     return out
+
+
+def wide_int_keys(seed, kind):
+    """u128 keys that are pairwise distinct but all congruent modulo 2^64 (e.g. addresses sharing a lower half):
+    the signature must depend on the whole key"""
+    r = random.Random(seed)
+    out = []
+    for n in (2, 10, 1000, 30000):
+        if kind == "func":
+            combo = r.choice([("shards", 2, "func", "bfv", "usize"), ("noshards", 1, "func", "bfv", "usize")])
+            v, wide = value_recipe(r, n, 64, "bfv")
+            b = build(n, combo, v=v, check_dups=r.random() < 0.5)
+            out.append(episode([b] + func_queries(r, n, wide), kt="u128", kf=RANGE0, src="recipe", budget_ms=60000))
+        else:
+            b = build(n, ("shards", 2, "filter", "box", "u8"), check_dups=r.random() < 0.5)
+            out.append(episode([b] + filter_queries(r, n, 8, max_probe_bits=8), kt="u128", kf=RANGE0, src="recipe", budget_ms=60000))
+    return out
